@@ -10,7 +10,7 @@ use hvcore::rigapi::{take_panic_msg, BoxRig, CfgInfo, DynRig, Snap};
 use std::ptr::NonNull;
 
 use any_vec::any_value::{
-    AnyValue, AnyValueCloneable, AnyValueMut, AnyValueRaw, AnyValueSizeless, AnyValueSizelessRaw, AnyValueTypeless,
+    AnyValue, AnyValueCloneable, AnyValueMut, AnyValueRaw, AnyValueTypelessMut, AnyValueSizeless, AnyValueSizelessRaw, AnyValueTypeless,
     AnyValueTypelessRaw, AnyValueWrapper, Unknown,
 };
 use any_vec::traits::Cloneable;
@@ -381,6 +381,7 @@ impl<'a, T: Elem + SatisfyTraits<Tr>, M: MemCaps, Tr: ?Sized + TrCaps> Cx<'a, T,
                 }
             }
             Op::IterScript { v, how, script, clone_at } => self.exec_iter_script(*v, *how, script, *clone_at),
+            Op::ViewWrite { v, at, via, id, w, j } => self.exec_view_write(*v, *at, *via, *id, *w, *j),
             Op::CloneEmptyIn { v, target } => match target {
                 #[cfg(feature = "alloc")]
                 Target::Heap => self.clone_empty_in_with::<any_vec::mem::Heap>(*v),
@@ -490,7 +491,7 @@ impl<'a, T: Elem + SatisfyTraits<Tr>, M: MemCaps, Tr: ?Sized + TrCaps> Cx<'a, T,
                 let tmp = self.vec(*v).clone_empty();
                 let old = std::mem::replace(self.vec(*v), tmp);
                 let mut notes: Vec<String> = Vec::new();
-                let (new, supported) = M::round_trip::<Tr>(old, *times, &mut |s| monalloc::user_scope(|| notes.push(s)));
+                let (new, supported) = M::round_trip::<Tr>(old, *times, &mut |s| monalloc::user_scope(|| notes.push(s.to_string())));
                 *self.vec(*v) = new;
                 for n in notes {
                     self.note(n);
@@ -546,6 +547,103 @@ impl<'a, T: Elem + SatisfyTraits<Tr>, M: MemCaps, Tr: ?Sized + TrCaps> Cx<'a, T,
             src.push(h);
         }
         drop(tmp);
+    }
+
+    /// Exchange the bytes of an element with the bytes of a fresh value, then drop the value that
+    /// came out (registry-neutral way of writing an element through a byte view).
+    fn swap_bytes_with_fresh(bytes: &mut [u8], id: Id) {
+        assert_eq!(bytes.len(), size_of::<T>(), "byte view of one element has the element size");
+        let mut fresh = ManuallyDrop::new(T::make(id));
+        unsafe {
+            std::ptr::swap_nonoverlapping(bytes.as_mut_ptr(), &mut *fresh as *mut T as *mut u8, size_of::<T>());
+            ManuallyDrop::drop(&mut fresh);
+        }
+    }
+
+    fn exec_view_write(&mut self, v: usize, at: usize, via: ViewKind, id: Id, w: usize, j: usize) {
+        let sz = size_of::<T>();
+        match via {
+            ViewKind::ElemMutTyped => {
+                let mut e = self.vec(v).at_mut(at);
+                e.downcast_mut::<T>().expect("downcast_mut of the right type").set_id(id);
+            }
+            ViewKind::GetMutTyped => {
+                let mut e = self.vec(v).get_mut(at).expect("index out of range");
+                AnyValueMut::downcast_mut::<T>(&mut *e).expect("downcast_mut of the right type").set_id(id);
+            }
+            ViewKind::ElemMutBytes => {
+                let mut e = self.vec(v).at_mut(at);
+                Self::swap_bytes_with_fresh(e.as_bytes_mut(), id);
+            }
+            ViewKind::TypedAtMut => {
+                let mut tv = self.vec(v).downcast_mut::<T>().expect("typed view of the right type");
+                tv.at_mut(at).set_id(id);
+            }
+            ViewKind::TypedGetMut => {
+                let mut tv = self.vec(v).downcast_mut::<T>().expect("typed view of the right type");
+                tv.get_mut(at).expect("index out of range").set_id(id);
+            }
+            ViewKind::TypedSlice => {
+                let mut tv = self.vec(v).downcast_mut::<T>().expect("typed view of the right type");
+                tv.as_mut_slice()[at].set_id(id);
+            }
+            ViewKind::VecBytes => {
+                if at >= self.vec(v).len() {
+                    panic!("index out of range (harness-side bound of the byte view)");
+                }
+                let b = self.vec(v).as_bytes_mut();
+                let hi = at.checked_add(1).and_then(|x| x.checked_mul(sz)).expect("index out of range");
+                Self::swap_bytes_with_fresh(&mut b[at * sz..hi], id);
+            }
+            ViewKind::IterMutItem => {
+                let mut e = self.vec(v).iter_mut().nth(at).expect("index out of range");
+                e.downcast_mut::<T>().expect("downcast_mut of the right type").set_id(id);
+            }
+            ViewKind::TIterMutItem => {
+                let mut tv = self.vec(v).downcast_mut::<T>().expect("typed view of the right type");
+                tv.iter_mut().nth(at).expect("index out of range").set_id(id);
+            }
+            ViewKind::ElemSwapWrapper => {
+                let mut e = self.vec(v).at_mut(at);
+                let mut wv = AnyValueWrapper::new(T::make(id));
+                e.swap(&mut wv);
+                drop(wv);
+            }
+            ViewKind::WrapperSwapElem => {
+                let mut e = self.vec(v).at_mut(at);
+                let mut wv = AnyValueWrapper::new(T::make(id));
+                wv.swap(&mut *e);
+                drop(wv);
+            }
+            ViewKind::ElemSwapRaw => {
+                let mut e = self.vec(v).at_mut(at);
+                let mut slot = RawSlot::<T>::new(id);
+                let mut raw = unsafe { AnyValueRaw::new(slot.ptr(), sz, TypeId::of::<T>()) };
+                e.swap(&mut raw);
+                drop(slot);
+            }
+            ViewKind::ElemSwapElem => {
+                assert_ne!(v, w, "HARNESS: same vector");
+                let mut a = self.vec(v).at_mut(at);
+                let mut b = self.vec(w).at_mut(j);
+                a.swap(&mut *b);
+            }
+            ViewKind::ElemSwapPopHandle => {
+                assert_ne!(v, w, "HARNESS: same vector");
+                let mut a = self.vec(v).at_mut(at);
+                let mut h = self.vec(w).pop().expect("HARNESS: pop source");
+                a.swap(&mut h);
+                drop(h);
+            }
+            ViewKind::ElemSwapRemoveHandle => {
+                assert_ne!(v, w, "HARNESS: same vector");
+                let mut a = self.vec(v).at_mut(at);
+                let mut h = self.vec(w).remove(j);
+                h.swap(&mut *a);
+                let t = h.downcast::<T>().expect("downcast of the right type");
+                self.vec(w).push(AnyValueWrapper::new(t));
+            }
+        }
     }
 
     fn exec_iter_script(&mut self, v: usize, how: IterHow, script: &[bool], clone_at: Option<usize>) {
@@ -1058,6 +1156,10 @@ impl<T: Elem + SatisfyTraits<Tr>, M: MemCaps, Tr: ?Sized + TrCaps> DynRig for Ri
             layout_ok: av.element_layout() == std::alloc::Layout::new::<T>(),
             is_empty: av.is_empty(),
             vals: Vec::new(),
+            bytes_base: av.as_bytes().as_ptr() as usize,
+            bytes_len: av.as_bytes().len(),
+            bytes_eq: true,
+            misalign: (av.as_bytes().as_ptr() as usize) % std::mem::align_of::<T>(),
         };
         if s.len > s.cap || !s.typeid_ok || !s.layout_ok {
             // never read beyond what the backend owns
@@ -1071,6 +1173,10 @@ impl<T: Elem + SatisfyTraits<Tr>, M: MemCaps, Tr: ?Sized + TrCaps> DynRig for Ri
                     return s;
                 }
                 s.vals.extend(sl.iter().map(probe_val));
+                if s.bytes_len == s.len * size_of::<T>() && s.bytes_base == s.base {
+                    let typed_bytes = unsafe { std::slice::from_raw_parts(sl.as_ptr() as *const u8, s.len * size_of::<T>()) };
+                    s.bytes_eq = typed_bytes == av.as_bytes();
+                }
             }
             None => s.typeid_ok = false,
         }
